@@ -6,6 +6,10 @@
    <<n, m>> read "n depends on m".  Nodes are names (strings): the plain nodes
    `Plain` and the graph-valued nodes DOMAIN Content; Content[g] is the
    (immutable, one level deep, acyclic) graph over Plain that the node g *is*.
+   A name stands for an OBJECT: two graph-valued names may well have the same
+   Content (two empty nested graphs, two with the same nodes and edges) -- the
+   implementation's objects then compare equal, but they are two nodes, like the
+   two names here.  The same holds for plain nodes that compare equal.
    A client program holds graphs in the variables 1..k (`Slots`); `live` is the
    set of variables that currently hold a graph.  Every public editing
    operation of valjean.cosette.depgraph.DepGraph is an action on one or more
